@@ -253,8 +253,12 @@ FamFailDep(K, CH) ==
 \* failure family (C05)
 FamFail(K, CH) ==
   UNION { UNION { UNION { {Scn(gr, h) : h \in Pick(CH, HistFail(gr, jk[1], jk[2]))} : jk \in {1, 2} \X {1, 2, 0} } :
-                  gr \in GraphsS(sh, {"plain", "restat", "gcc"}, K) } :
+                  gr \in GraphsS(sh, {"plain", "restat", "gcc", "depfile"}, K) } :
           sh \in {"chain2", "chain3", "fanin", "fanout", "indep", "mixed", "diamond", "alias", "valid", "oonly", "aliasoo", "aliasoo2", "midoo"} }
+  \cup
+  \* a header known from the depfile / deps log is edited and the command then fails after it has rewritten its output
+  UNION { {Scn(gr, <<Build(Roots(gr), 2, 1), [op |-> "edit", f |-> "s2"], BuildF(Roots(gr), 2, 1, FailRec({2}, 3, TRUE)), Build(Roots(gr), 2, 1), Build(Roots(gr), 2, 1)>>)} :
+          gr \in {Graph(<<St1(1, <<"o1">>, <<"s1">>, <<>>), [St1(2, <<"o2">>, <<"o1">>, <<>>) EXCEPT !.deps = d, !.hdrs = <<"s2">>], St1(3, <<"o3">>, <<"o2">>, <<>>)>>) : d \in {"depfile", "gcc", "msvc"}} }
   \cup FamFailDep(K, CH) \cup FamMissing(K, CH)
   \cup
   \* more failures in flight than the budget, with independent work still queued
@@ -609,6 +613,13 @@ FamDirs(K, CH) ==
                           j \in {1, 2}, c \in {x \in Changes(gr) : x.op \in {"edit", "touch"}}} : i \in {x \in Cmds(gr) : HasDir(gr, x)} } :
           gr \in DirGraphs(K) }
 
+\* a generated header that its reader names twice - as order-only input and, after the first build, as recorded dependency -
+\* comes from a restat statement that leaves it alone, while another statement of the same link step really changes
+RestatTwiceNamed ==
+  { Graph(<< [St1(1, <<"o1">>, <<"s1">>, <<>>) EXCEPT !.restat = TRUE],
+             [St1(2, <<"o2">>, <<"s2">>, <<"o1">>) EXCEPT !.deps = d, !.hdrs = <<"o1">>],
+             St1(3, <<"o3">>, <<"s3">>, <<>>),
+             St1(4, <<"o4">>, <<"o2", "o3">>, <<>>) >>) : d \in {"gcc", "depfile"} }
 \* restat interplay: statement 1 is a restat statement whose input is touched (it re-runs and leaves
 \* its output alone) together with any other change, on random graphs
 RestatGraphs(R) ==
@@ -621,6 +632,8 @@ RestatGraphs(R) ==
 FamRestat(K, CH) ==
   UNION { {Scn(gr, <<Build(Roots(gr), 2, 1), [op |-> "touch", f |-> (gr.stmts[1].ex \o gr.stmts[1].im)[1]], c, Build(Roots(gr), 2, 1), Build(Roots(gr), 2, 1)>>) :
               c \in Pick(CH, ChangesET(gr))} : gr \in RestatGraphs(K) }
+  \cup UNION { {Scn(gr, <<Build(Roots(gr), j, 1), [op |-> "touch", f |-> "s1"], [op |-> o, f |-> f], Build(Roots(gr), j, 1), Build(Roots(gr), j, 1)>>) :
+                  j \in {1, 2}, o \in {"edit", "touch"}, f \in {"s3", "s2"}} : gr \in RestatTwiceNamed }
 
 (***************************************************************************)
 (* C18: cleaning.  After a build (and optional deletions) a clean of every  *)
